@@ -67,21 +67,37 @@ def case_load(ses, case):
         it = Interp(path)
         arr = w.make_array(it)
         lock_log = []
+        # the wrapper as the real constructor leaves it (every attribute the current source gives it), with a spy as its lock
         wrapper = object.__new__(X.LazilyIndexedWrapper)
-        for k_, v in dict(array=arr, lock=LockSpy(lock_log), shape=arr.shape, dtype=arr.dtype).items():
-            object.__setattr__(wrapper, k_, v)
-        extra.update(it=it, arr=arr, wrapper=wrapper, lock_log=lock_log, fs=arr.fs)
+        it.call(it.getattr(wrapper, "__init__"), [arr, LockSpy(lock_log)], {})
+        extra.update(it=it, arr=arr, wrapper=wrapper, lock_log=lock_log, fs=arr.fs, n_effects=len(it.effects))
         n_before = len(it.io_log)
         res = it.call(it.getattr(wrapper, "_raw_indexing_method"), [(key0, key1)], {})
         extra["log"] = it.io_log[n_before:]
         return res
 
-    ok = explore_checked(ses, f"{ses.prop}/load/{tag}", run, hyps, function=fn, timeout_ms=800, limit_group="load")
+    partial = []
+
+    def on_limit(r):
+        # stores made before the path left the verified subset are facts about the code, whatever follows
+        ex = r.extra
+        if "wrapper" not in ex:
+            return
+        it, arr, wrapper = ex["it"], ex["arr"], ex["wrapper"]
+        own = [e for e in it.effects[ex.get("n_effects", 0):] if e[1] is arr or e[1] is wrapper or e[1] is ex["fs"]]
+        sh = frame.shared_state_writes(it, shared)
+        if own or sh:
+            partial.append((own, sh))
+            ses.decided(f"{ses.prop}/load/{tag}/prefix{len(partial)}/no-store-to-shared-objects-before-leaving-the-verified-subset", False,
+                        function=fn, kind="frame", backend="effect-log",
+                        detail={"effects": [(e[0], type(e[1]).__name__, str(e[2])) for e in own][:4], "module_state": sh[:3]})
+
+    ok = explore_checked(ses, f"{ses.prop}/load/{tag}", run, hyps, function=fn, timeout_ms=800, limit_group="load", on_limit=on_limit)
     for pi, r in enumerate(ok):
         ex = r.extra
         it, arr, wrapper = ex["it"], ex["arr"], ex["wrapper"]
         pid = f"{ses.prop}/load/{tag}/path{pi}"
-        own = [e for e in it.effects if e[1] is arr or e[1] is wrapper or e[1] is ex["fs"] or e[1] is arr.chunk_offsets
+        own = [e for e in it.effects[ex["n_effects"]:] if e[1] is arr or e[1] is wrapper or e[1] is ex["fs"] or e[1] is arr.chunk_offsets
                or e[1] is arr.byte_ranges]
         ses.decided(f"{pid}/no-store-to-the-array-wrapper-or-filesystem", not own, function=fn, kind="frame", backend="effect-log",
                     detail={"effects": [(e[0], type(e[1]).__name__, str(e[2])) for e in own][:4]})
@@ -108,6 +124,9 @@ def run(ses):
     from ceos_alos2 import xarray as X
     from pyvc.harness import run_cases
 
+    from pyvc import frame as _frame
+
+    _frame.purity_obligation(ses)  # a memo (lru_cache) anywhere in the package is state shared by all threads
     cases = [("IU2", k0, "slice_none") for k0 in KINDS] + ([("C*8", "slice_sym", "slice_sym")] if ses.tier == "thorough" else [])
     run_cases(ses, "props.c19", "case_load", cases)
     from native import arraycheck as ac
